@@ -58,6 +58,42 @@ def check_identity(root, who="real", px=None):
     return out, n
 
 
+def row_identity(root, who="real"):
+    """C01 on the recorded history alone: on every recorded date a strategy's value row equals its cash row plus its children's value rows, and a
+    security's value row equals position x price x multiplier of the same rows. Whatever state a date ended in, its rows must describe ONE state.
+    Returns (first (mech, witness) or None, evaluations)."""
+    n = 0
+    members = root.members
+    rows = {}
+    for m in members:
+        d = m.data
+        rows[id(m)] = d
+    for m in members:
+        d = rows[id(m)]
+        vals = d["value"].to_numpy(dtype=float)
+        if isinstance(m, StrategyBase):
+            cash = d["cash"].to_numpy(dtype=float)
+            kids = [c for c in m.children.values() if id(c) in rows]
+            kv = [rows[id(c)]["value"].to_numpy(dtype=float) for c in kids]
+            for i in range(len(vals)):
+                s = cash[i] + sum(k[i] for k in kv)
+                scale = 1.0 + abs(cash[i]) + sum(abs(k[i]) for k in kv)
+                n += 1
+                if not abs(vals[i] - s) <= REL * scale:
+                    return ("c01_row_identity", {"tree": who, "node": m.full_name, "date": str(d.index[i]), "value_row": vals[i], "cash_row": cash[i],
+                                                 "children_value_rows": {c.name: k[i] for c, k in zip(kids, kv)}}), n
+        else:
+            pos = d["position"].to_numpy(dtype=float)
+            px = m.prices.to_numpy(dtype=float)
+            for i in range(len(vals)):
+                n += 1
+                exp = 0.0 if pos[i] == 0 else pos[i] * px[i] * m.multiplier
+                if not abs(vals[i] - exp) <= REL * (1.0 + abs(exp)):
+                    return ("c01_row_identity", {"tree": who, "node": m.full_name, "date": str(d.index[i]), "value_row": vals[i], "position_row": pos[i],
+                                                 "price_row": px[i], "mult": m.multiplier}), n
+    return None, n
+
+
 def trees(root):
     """the real tree plus every paper-trading shadow reachable from it"""
     out = [("real", root)]
@@ -109,6 +145,12 @@ class Identity(object):
 
     def end(self, drv):
         # recorded rows equal the end-of-date state
+        for who, r in trees(drv.root):
+            v, n = row_identity(r, who)
+            bump(drv.cnt, "row_identity_evals", n)
+            if v:
+                drv.violation(v[0], **v[1])
+                return
         for who, r in trees(drv.root):
             g = REL * (1 + ins.gross(r))
             for m in r.members:
